@@ -812,11 +812,17 @@ func Scan(
 
 	// Convert the list of re-check paths into a set of dirty paths. The rule is
 	// that we add any re-check path as well as any parent component of any
-	// re-check path.
+	// re-check path. Re-check paths originate from filesystem watchers and are
+	// thus in on-disk form, whereas the content paths they're compared with are
+	// recomposed on filesystems that decompose Unicode, so in that case the
+	// re-check paths need to be recomposed as well.
 	var dirtyPaths map[string]bool
 	if baseline != nil && len(recheckPaths) > 0 {
 		dirtyPaths = make(map[string]bool)
 		for path := range recheckPaths {
+			if decomposesUnicode {
+				path = norm.NFC.String(path)
+			}
 			for {
 				dirtyPaths[path] = true
 				if path == "" {
